@@ -17,8 +17,8 @@ RULE = ("two real dilated wormholes; random interleavings of listener_for(name).
         "either side is recorded (its id). Non-trivial = at least one subchannel was opened and closed; "
         "distinct = scheduler decision traces.")
 ASSUMPTIONS = ["Noise stand-in", "bounded progress: 300 virtual seconds"]
-FLOORS = {"quick": {"subchannels": 500, "closes": 200, "writes_after_close": 100, "writes_right_after_close": 300, "half_closed_subchannels_at_wormhole_close": 60, "undeclared_opens": 40, "late_listens": 40},
-          "thorough": {"subchannels": 15000, "closes": 6000, "writes_after_close": 3000, "writes_right_after_close": 9000, "half_closed_subchannels_at_wormhole_close": 2000, "undeclared_opens": 1200, "late_listens": 1200}}
+FLOORS = {"quick": {"subchannels": 500, "closes": 200, "writes_after_close": 100, "writes_right_after_close": 300, "half_closed_subchannels_at_wormhole_close": 60, "undeclared_opens": 40, "late_listens": 40, "connects_around_wormhole_close": 200},
+          "thorough": {"subchannels": 15000, "closes": 6000, "writes_after_close": 3000, "writes_right_after_close": 9000, "half_closed_subchannels_at_wormhole_close": 2000, "undeclared_opens": 1200, "late_listens": 1200, "connects_around_wormhole_close": 6000}}
 NAMES = ["p0", "p1", "ünï-proto", "x" * 40]
 
 _created = []
@@ -317,10 +317,23 @@ def run_case(spec):
     sch.drain(30.0, 3000, until=lambda: False)
     half_open_at_close_before = sum(1 for p_ in all_protos if isinstance(p_, HalfRecProto) and getattr(p_, "transport", None) is not None
                                     and state_of(p_.transport) in ("read_closed", "write_closed", "open_half"))
+    # connect() calls around the wormhole's close(): in the same turn just before it, while it is closing, and after the
+    # closed notification.  Each either fails or yields a protocol that is told connectionLost like every other
+    late = []
+    late_mode = rng.choice([None, "before", "during", "after", "all"])
+    if late_mode in ("before", "all"):
+        late.append(("before", drv.open(rng.choice("AB"), "p0")))
     dp.a.close()
     dp.b.close()
+    if late_mode in ("during", "all"):
+        sch.run(rng.randint(1, 12))
+        late.append(("during", drv.open(rng.choice("AB"), "p0")))
     sch.drain(120.0, 8000, until=lambda: dp.a.closed and dp.b.closed)
+    if late_mode in ("after", "all") and dp.a.closed and dp.b.closed:
+        late.append(("after", drv.open(rng.choice("AB"), "p0")))
     sch.drain(5.0, 2000)
+    all_protos = all_protos + [rec_["proto"] for (_, rec_) in late if rec_["proto"] is not None and rec_["proto"] not in all_protos]
+    late_outcomes = ["%s:%s" % (when_, "protocol" if rec_["proto"] is not None else (rec_["failure"] or "pending")) for (when_, rec_) in late]
     # the wormholes are closed: no subchannel can carry anything any more, so every protocol must have been told
     still_open = 0
     half_open_at_close = sum(1 for p_ in all_protos if isinstance(p_, HalfRecProto) and getattr(p_, "transport", None) is not None
@@ -345,8 +358,8 @@ def run_case(spec):
     return {"violations": viol, "nontrivial": nontrivial,
             "counters": {"subchannels": nsub, "closes": closes, "writes_after_close": writes_after_close, "writes_right_after_close": len(early_wac), "unencodable_names_tried": bad_name["tried"], "opens_refused_by_factory": refusals, "subchannels_open_at_wormhole_close": still_open, "half_closed_subchannels_at_wormhole_close": half_open_at_close_before, "calls_from_inside_protocol_callbacks": drv.reactions_done, "errors_escaping_connectionLost": drv.escaped, "false_factories": drv.falsy_factories, "undeclared_opens": undeclared,
                          "late_listens": late_listens, "half_protocols": sum(isinstance(p, HalfRecProto) for p in all_protos),
-                         "opens": len(drv.opens), "notrans_seen": len(MON.notrans)},
-            "sets": {"write_after_close_errors": sorted({e for (_, e, _) in wac_errors if e} | {e[1] for e in early_wac if e[1]}),
+                         "opens": len(drv.opens), "connects_around_wormhole_close": len(late), "notrans_seen": len(MON.notrans)},
+            "sets": {"connects_around_wormhole_close": late_outcomes, "write_after_close_errors": sorted({e for (_, e, _) in wac_errors if e} | {e[1] for e in early_wac if e[1]}),
                      "logged_errors": sorted({e[0] for e in MON.errors}), "dilation_notrans": ["%s.%s/%s" % k for k in set(MON.notrans)]},
             "sample": {"spec": spec, "names": names, "expected": expected, "opens": [(r["side"], r["name"], bool(r["proto"])) for r in drv.opens],
                        "ids": {k: sorted(v) for k, v in ids.items()}, "events": {p.name: [e[0] for e in p.events][:8] for p in all_protos[:6]}}}
